@@ -246,7 +246,7 @@ def trypatch(argv, seed):
     tier = argv[1] if len(argv) > 1 else "quick"
     driver.sysroot_note()
     root, repo, sim = make_scratch("trypatch")
-    keep = os.path.join(runner.VERIF, "work", "trypatch-replays")
+    keep = os.environ.get("VERIF_REPLAY_DIR") or os.path.join(runner.VERIF, "work", "trypatch-replays")
     shutil.rmtree(keep, ignore_errors=True)
     driver.REPLAYS = keep
     try:
